@@ -23,6 +23,10 @@ EVIDENCE = VERIF / 'evidence'
 REPLAYS = VERIF / 'replays'
 CORPUS = VERIF / 'corpus'
 DRIVER = LEAN / '.lake' / 'build' / 'bin' / 'xldriver'
+
+
+def driver_exe(prop):
+    return LEAN / '.lake' / 'build' / 'bin' / f'drv_{prop.lower()}'
 ALLOWED_AXIOMS = {'propext', 'Classical.choice', 'Quot.sound'}
 FORBIDDEN = re.compile(
     r'\b(sorry|admit|native_decide|bv_decide|implemented_by|unsafe)\b|^\s*axiom\s|maxHeartbeats\s+0\b',
@@ -162,16 +166,22 @@ def count_examples(module):
     return len(re.findall(r'(?m)^\s*example\b', body))
 
 
-def prepare(prop, extra_targets=()):
+def prepare(prop, extra_targets=(), extra_extractors=()):
     """Steps 1-3 of DESIGN.md §2.3: regenerate Gen, build model+driver, build and audit Props.<prop>."""
     st = ProofStatus()
     with build_lock():
-        st.extract_ok, st.extract_log = run_extract()
-        if not st.extract_ok:
-            st.broken.append('translator harness/extract.py')
-        st.model_ok, st.model_log = lake_build(['XlVerif', 'xldriver'])
+        ok, st.extract_log = run_extract()
+        if not ok:
+            m = re.search(r'FAILED extractors: (.*)', st.extract_log)
+            failed = [x.strip() for x in m.group(1).split(',')] if m else ['?']
+            mine = [x for x in failed if x == '?' or x.startswith('a_') or x.startswith(prop.lower())
+                    or x in extra_extractors]
+            if mine:
+                st.extract_ok = False
+                st.broken.append('translator harness/extract.py: ' + ', '.join(mine))
+        st.model_ok, st.model_log = lake_build([f'XlVerif.Drv.{prop}', f'drv_{prop.lower()}'])
         if not st.model_ok:
-            st.broken.append('model build (lake build XlVerif xldriver)')
+            st.broken.append(f'model build (lake build XlVerif.Drv.{prop} drv_{prop.lower()})')
         module = f'XlVerif.Props.{prop}'
         if (LEAN / 'XlVerif' / 'Props' / f'{prop}.lean').exists():
             st.props_ok, st.props_log = lake_build([module] + list(extra_targets))
@@ -203,8 +213,9 @@ def prepare(prop, extra_targets=()):
 class Driver:
     """Batch interface to the Lean line-protocol driver."""
 
-    def __init__(self):
-        self.exe = DRIVER
+    def __init__(self, prop):
+        self.exe = driver_exe(prop)
+        self.prop = prop
 
     def batch(self, lines, timeout=3600):
         if not lines:
@@ -213,7 +224,7 @@ class Driver:
         if self.exe.exists():
             cmd = [str(self.exe)]
         else:
-            cmd = ['lake', 'env', 'lean', '--run', 'Driver.lean']
+            cmd = ['lake', 'env', 'lean', '--run', f'Main/{self.prop}.lean']
         p = subprocess.run(cmd, cwd=str(LEAN), input=data, stdout=subprocess.PIPE,
                            stderr=subprocess.PIPE, text=True, timeout=timeout)
         out = p.stdout.split('\n')
